@@ -21,6 +21,7 @@ import (
 	"go.amzn.com/lambda/interop"
 	"go.amzn.com/lambda/rapid"
 	"go.amzn.com/lambda/rapidcore"
+	"go.amzn.com/lambda/rapidcore/env"
 	"go.amzn.com/lambda/telemetry"
 	"go.amzn.com/verifh/ehook"
 	"go.amzn.com/verifrt/sched"
@@ -95,6 +96,7 @@ type Config struct {
 	RuntimeFailFirst int
 	Env              map[string]string // process environment of the emulator for this scenario
 	Handler          string
+	InitCaching      bool // snapshot mode (restore routes, credentials endpoint)
 	root             string
 }
 
@@ -216,6 +218,7 @@ func NewWorld(cfg *Config) *World {
 	b.SetExtensionsFlag(true)
 	b.SetRuntimeFsRootPath(cfg.root)
 	b.SetEventsAPI(&recEvents{w: w})
+	b.SetInitCachingFlag(cfg.InitCaching)
 	if cfg.Handler != "" {
 		b.SetHandler(cfg.Handler)
 	}
@@ -773,4 +776,108 @@ func (w *World) PlatformTrace(m Marks) string {
 		fmt.Fprintf(&sb, "event %s %s\n", e.Kind, s)
 	}
 	return NormUUIDs(sb.String())
+}
+
+// ---- server-level driving (no front end): initialisation can precede the first invocation, snapshot mode ----
+
+// InitParams are the values given to the platform at initialisation (the extensions' register answers
+// must echo them).
+type InitParams struct {
+	Handler, FunctionName, FunctionVersion, AccountID string
+	AwsKey, AwsSecret, AwsSession                     string
+	TimeoutMs                                         int64
+	Customer                                          map[string]string
+}
+
+// ServerInit starts the initialisation through the LambdaInvokeAPI (asynchronous, as in the emulator).
+func (w *World) ServerInit(p InitParams) {
+	if p.TimeoutMs == 0 {
+		p.TimeoutMs = int64(w.Cfg.TimeoutSec) * 1000
+	}
+	if p.Customer == nil {
+		p.Customer = map[string]string{}
+	}
+	w.Builder.LambdaInvokeAPI().Init(&interop.Init{
+		Handler:                      p.Handler,
+		AccountID:                    p.AccountID,
+		AwsKey:                       p.AwsKey,
+		AwsSecret:                    p.AwsSecret,
+		AwsSession:                   p.AwsSession,
+		XRayDaemonAddress:            "0.0.0.0:0",
+		FunctionName:                 p.FunctionName,
+		FunctionVersion:              p.FunctionVersion,
+		RuntimeInfo:                  interop.RuntimeInfo{ImageJSON: "{}"},
+		CustomerEnvironmentVariables: p.Customer,
+		SandboxType:                  interop.SandboxClassic,
+		Bootstrap:                    w.Bootstrap,
+		EnvironmentVariables:         env.NewEnvironment(),
+	}, p.TimeoutMs)
+}
+
+type proxyWriter struct {
+	hdr    http.Header
+	body   []byte
+	status int
+}
+
+func (p *proxyWriter) Header() http.Header         { return p.hdr }
+func (p *proxyWriter) Write(b []byte) (int, error) { p.body = append(p.body, b...); return len(b), nil }
+func (p *proxyWriter) WriteHeader(s int)           { p.status = s }
+
+// ServerInvoke performs one invocation through LambdaInvokeAPI.Invoke on the current thread. Status is
+// 200 on nil error, else 5xx with the error text in Panic.
+func (w *World) ServerInvoke(payload []byte) *Invoke {
+	inv := &Invoke{Idx: len(w.Invokes), Payload: payload, Issued: sched.StepNo(), IssuedNs: sched.NowNs(), Answered: -1, IssuedAt: sched.StampNow()}
+	w.Invokes = append(w.Invokes, inv)
+	w.Milestone++
+	pw := &proxyWriter{hdr: http.Header{}}
+	var err error
+	func() {
+		defer func() {
+			if r := recover(); r != nil {
+				if sched.IsAbort(r) {
+					panic(r)
+				}
+				inv.Aborted = true
+				inv.Panic = fmt.Sprint(r)
+			}
+		}()
+		err = w.Builder.LambdaInvokeAPI().Invoke(pw, &interop.Invoke{
+			ID:                 "00000000-0000-0000-0000-000000000000",
+			InvokedFunctionArn: "arn:aws:lambda:us-east-1:012345678912:function:test_function",
+			Payload:            bytes.NewReader(payload),
+		})
+	}()
+	inv.Answered = sched.StepNo()
+	inv.AnsAt = sched.StampNow()
+	inv.AnsNs = sched.NowNs()
+	inv.Status = 200
+	if err != nil {
+		inv.Status = 500
+		inv.Panic = err.Error()
+	}
+	inv.Body = pw.body
+	w.Milestone++
+	return inv
+}
+
+// RestoreResult is the outcome of a restore request.
+type RestoreResult struct {
+	Err       error
+	IssuedNs  int64
+	AnsNs     int64
+	IssuedAt  sched.Stamp
+	AnsAt     sched.Stamp
+	RestoreMs int64
+}
+
+// ServerRestore issues a restore request on the current thread.
+func (w *World) ServerRestore(r *interop.Restore) *RestoreResult {
+	res := &RestoreResult{IssuedNs: sched.NowNs(), IssuedAt: sched.StampNow()}
+	w.Milestone++
+	rr, err := w.Builder.DefaultInteropServer().Restore(r)
+	res.Err, res.RestoreMs = err, rr.RestoreMs
+	res.AnsNs, res.AnsAt = sched.NowNs(), sched.StampNow()
+	w.Milestone++
+	return res
 }
